@@ -2,17 +2,27 @@
 import os
 import time
 
+import sys
+
 _FD = None
+_PID = None
 
 
 def open_log(path):
-    global _FD
+    global _FD, _PID
     _FD = os.open(path, os.O_WRONLY | os.O_CREAT | os.O_APPEND, 0o644)
+    _PID = os.getpid()
+
+
+def in_child():
+    """this process was forked by the task body (it is not the job process)"""
+    return _PID is not None and os.getpid() != _PID
 
 
 def emit(text):
+    """what a process forked by the body does is logged with the prefix C"""
     if _FD is not None:
-        os.write(_FD, (text + "\n").encode())
+        os.write(_FD, (("C" if in_child() else "") + text + "\n").encode())
 
 
 def mark(counter_path, letter, event):
@@ -28,3 +38,21 @@ def mark(counter_path, letter, event):
         t0 = time.time()
         while not os.path.exists(hold) and time.time() - t0 < 120:
             time.sleep(0.005)
+
+
+def fork_child(counter_path, how):
+    """The body forks (as multiprocessing with the fork start method or a plain os.fork does); the child leaves as
+    `how` says - quit: os._exit(0) (what multiprocessing children do), exit0 / exit3: sys.exit(code), raise: an
+    exception nobody catches - and the parent waits for it, then marks F.  Not traced: no kill point in between,
+    the whole life of the child is one moment of the body."""
+    pid = os.fork()
+    if pid == 0:
+        if how == "quit":
+            os._exit(0)
+        if how == "exit0":
+            sys.exit(0)
+        if how == "exit3":
+            sys.exit(3)
+        raise RuntimeError("C10 forked child failure")
+    os.waitpid(pid, 0)
+    mark(counter_path, "F", "E Fork")
